@@ -112,6 +112,16 @@ def run(ctx):
                 for head in (rng.choice(ps) + " ", "", rng.choice(FILLER) + " "):
                     cases.append({"text": "%s%s %s %s %s" % (head, cn, rng.choice(nums), rng.choice(CONNECT), rng.choice(nums)), "languages": [L],
                                   "settings": None, "withlang": False})
+        # the same text in another letter case / with other spacing, searched right after the original in the same
+        # process: what is reported belongs to the text of THIS call
+        def recase(t):
+            return rng.choice([t.upper(), t.lower(), t.title(), t.swapcase(), t.capitalize(), " " + t, t.replace(" ", "  ")])
+        base_cases = [c for c in cases if any(ch.isalpha() for ch in c["text"])]
+        for c in rng.sample(base_cases, min(len(base_cases), 600 if ctx.quick() else 8000)):
+            v = recase(c["text"])
+            if v != c["text"]:
+                cases.append(dict(c, text=v, pre=[c["text"]]))
+                cases.append(dict(c, pre=[v]))
         for _ in range(1500 if ctx.quick() else 20000):      # autodetection and multi-language lists
             L = rng.choice(order)
             langs = None if rng.random() < 0.6 else rng.sample(order, rng.randint(2, 3))
